@@ -1640,6 +1640,22 @@ def uring_mix_scenarios(rng):
                        ["write_at@u", 0, 1, 0, [33]],
                        ["dump", 0]]
                 out.append({"cfg": base_cfg(rng, 1), "steps": st, "flavour": "uring-mix-scenario"})
+    # zero-length writes / reads through the three front-ends: at EOF, before EOF, far beyond EOF,
+    # after a shrinking and after an extending set_len (a zero-length write changes nothing, returns 0)
+    for flags in ("rw", "rwc", "w", "a", "ra", "wa", "rwct", "r"):
+        for tok in (False, True):
+            t = "@t" if tok else ""
+            st = [["mkdir", 0, "/d"], ["spit", 0, "/d/a", [48, 49, 50, 51, 52]],
+                  ["open", 0, 1, "/d/a", flags + ("k" if tok else "")],
+                  ["write_at@u", 0, 1, 100, []], ["flen", 0, 1],
+                  ["set_len", 0, 1, 2], ["write_at@u", 0, 1, 6, []], ["flen", 0, 1], ["slurp", 0, "/d/a"],
+                  ["write_at" + t, 0, 1, 50, []], ["write", 0, 1, []], ["flen", 0, 1],
+                  ["read_at@u", 0, 1, 0, 0], ["read_at@u", 0, 1, 40, 0], ["read_at" + t, 0, 1, 1, 0], ["read", 0, 1, 0],
+                  ["set_len", 0, 1, 8], ["write_at@u", 0, 1, 8, []], ["write_at@u", 0, 1, 3, []],
+                  ["write_at" + t, 0, 1, 8, []], ["flen", 0, 1], ["read_at@u", 0, 1, 0, 16],
+                  ["write_at@u", 0, 1, 9, [65]], ["write_at@u", 0, 1, 30, []], ["sync_all@u", 0, 1], ["flen", 0, 1],
+                  ["slurp" + ("" if tok else "@t"), 0, "/d/a"], ["dump", 0]]
+            out.append({"cfg": base_cfg(rng, 1), "steps": st, "flavour": "uring-mix-scenario+zero-length"})
     return out
 
 
@@ -1651,5 +1667,16 @@ def with_uring(case, rng, p=0.35):
         if st[0] in ("write_at", "read_at", "sync_all", "write_at@t", "read_at@t", "sync_all@t") and rng.random() < p:
             st = [st[0].split("@")[0] + "@u"] + list(st[1:])
         steps.append(st)
+        # boundary sizes: a zero-length write / read on the same handle, through any front-end, at
+        # offsets before, at and far beyond the end of the file
+        if st[0].split("@")[0] in ("write_at", "read_at", "set_len", "write") and rng.random() < 0.4:
+            fe = rng.choice(["", "@t", "@u", "@u"])
+            off = rng.choice([0, 1, 3, 6, 9, 100])
+            if rng.random() < 0.7:
+                steps.append(["write_at" + fe, st[1], st[2], off, []])
+            else:
+                steps.append(["read_at" + fe, st[1], st[2], off, 0])
+            if rng.random() < 0.5:
+                steps.append(["flen", st[1], st[2]])
     c = {"cfg": dict(case["cfg"]), "steps": steps, "flavour": case.get("flavour", "") + "+uring"}
     return c
